@@ -96,7 +96,7 @@ theorem dead_once_never_runs (s : St) (sys idx : Nat) (k : Kind) (h : s.alive sy
 
 /-- **Revoked before any trigger fires**: the revoke removes the registrations (C06), the handle count drops to zero and
     the garbage collection despawns the reactor, dropping the wrapper (and the system it holds) without running it. -/
-theorem revoked_never_runs_dropped (s : St) (e : Nat) (h : s.storage e = some true) : Ev.canary e ∈ (kill s e).trace :=
+theorem revoked_never_runs_dropped (s : St) (e : Nat) (h : s.storage e = some true) : canaryEv s e ∈ (kill s e).trace :=
   (C07.despawn_drops_state s e h).1
 
 /-- **Empty bundle**: nothing is registered, the reactor is queued for collection by the registration itself. -/
@@ -107,7 +107,7 @@ theorem empty_bundle_dropped (s : St) (sys : Nat) :
 
 /-- If the reactor entity died before the wrapper could be inserted, the wrapper (and the system) is dropped at once. -/
 theorem insert_on_dead_drops (s : St) (sys : Nat) (h : s.alive sys = false) :
-    applyCmd s (.insertOnce sys) = s.emit (.canary sys) := by
+    applyCmd s (.insertOnce sys) = s.emit (canaryEv s sys) := by
   simp [applyCmd, h]
 
 example : ((startBody ({ info := fun _ => { once := some [] } } : St) 3 .plain).info 3).onceTaken = true :=
